@@ -141,6 +141,49 @@ def main():
         anchors["date.fromordinal"] += 1
     if datetime.date(1970, 1, 1).toordinal() != 719163 or datetime.date(1, 1, 1).toordinal() != 1 or datetime.date(9999, 12, 31).toordinal() != 3652059:
         report["failures"].append({"anchor": "epoch ordinal"})
+    # datetime arithmetic assumed by the timestamp contracts (contracts/externals.py: __sub__, __add__, timedelta, replace)
+    anchors["datetime.arith"] = 0
+    D = datetime.datetime
+    def rand_dt(aware):
+        us = rng.choice([0, 1, SC.MAX_DT_US, SC.MAX_DT_US - 1, SC.EPOCH_US, SC.EPOCH_US - 1, SC.EPOCH_US + 999, rng.randrange(SC.MAX_DT_US + 1)])
+        x = D(1, 1, 1) + datetime.timedelta(microseconds=us)
+        if aware:
+            off = rng.choice([0, 1, -1, 3600, -3600, 86399, -86399, rng.randrange(-86399, 86400)])
+            x = x.replace(tzinfo=datetime.timezone(datetime.timedelta(seconds=off)))
+        return x
+    if SC.dt_us(D(1970, 1, 1, tzinfo=datetime.timezone.utc)) != SC.EPOCH_US or SC.dt_us(D(1970, 1, 1)) != SC.EPOCH_US or SC.dt_us(D.max) != SC.MAX_DT_US:
+        report["failures"].append({"anchor": "EPOCH_US / MAX_DT_US"})
+    for _ in range(4000):
+        aw = rng.random() < 0.5
+        a, b = rand_dt(aw), rand_dt(aw if rng.random() < 0.8 else not aw)
+        good = SC.is_datetime(a) and SC.dt_aware(a) == aw and (a.tzinfo is None) == (not aw)
+        try:
+            td = a - b
+            good = (good and SC.dt_aware(a) == SC.dt_aware(b) and SC.is_timedelta(td) and SC.td_total_us(td) == SC.dt_us(a) - SC.dt_us(b)
+                    and 0 <= SC.td_seconds(td) < 86400 and 0 <= SC.td_micros(td) < 1000000)
+        except TypeError:
+            good = good and SC.dt_aware(a) != SC.dt_aware(b)
+        n = rng.choice([0, 1, -1, 10 ** 6, -10 ** 6, SC.MAX_DT_US, -SC.MAX_DT_US, rng.randrange(-SC.MAX_DT_US, SC.MAX_DT_US),
+                        86399999999999999999, 86399999999999999999 + 1, -86399999913600000000, -86399999913600000000 - 1])
+        try:
+            t2 = datetime.timedelta(microseconds=n)
+            good = (good and -86399999913600000000 <= n <= 86399999999999999999 and SC.td_total_us(t2) == n
+                    and 0 <= SC.td_seconds(t2) < 86400 and 0 <= SC.td_micros(t2) < 1000000)
+            inrange = 0 <= SC.dt_us(a) + SC.dt_offset_us(a) + n <= SC.MAX_DT_US
+            try:
+                r = a + t2
+                good = (good and inrange and SC.is_datetime(r) and SC.dt_us(r) == SC.dt_us(a) + n and SC.dt_aware(r) == SC.dt_aware(a)
+                        and SC.dt_offset_us(r) == SC.dt_offset_us(a))
+            except OverflowError:
+                good = good and not inrange
+        except OverflowError:
+            good = good and not (-86399999913600000000 <= n <= 86399999999999999999)
+        if not aw:
+            r = a.replace(tzinfo=datetime.timezone.utc)
+            good = good and SC.is_datetime(r) and SC.dt_aware(r) and SC.dt_offset_us(r) == 0 and SC.dt_us(r) == SC.dt_us(a)
+        if not good:
+            report["failures"].append({"anchor": "datetime.arith", "a": repr(a), "b": repr(b), "n": n})
+        anchors["datetime.arith"] += 1
     # decimal observers (as_tuple) and the two's-complement meaning of int.to_bytes(n, "big", signed=True)
     import decimal
     anchors["decimal.as_tuple"] = anchors["to_bytes_signed_big"] = 0
